@@ -116,7 +116,7 @@ def _drain(core, sim, mon, cursor, beh, lost_ids, slow, orders, reached=None):
 
 @rigged
 def ending(src, napps=1, nprocs=2, order=('restart', 'shutdown'), rounds=10, loss=True, master=True,
-           lean=False):
+           lean=False, second=False):
     """H09a/b: supvisors.restart / shutdown issued on a real Master (or non-Master): the real _EndingState classes,
     Stopper, ApplicationStopJobs, ProcessStopCommand against fake supervisords with solver-chosen rules, placement,
     stop behaviours and the loss of the peer during the ending phase"""
@@ -195,7 +195,18 @@ def ending(src, napps=1, nprocs=2, order=('restart', 'shutdown'), rounds=10, los
     src.reach('master')
     src.check('master-enters-ending-state', core.fsm.state.name in (final_state, 'FINAL'), sig=what,
               state=core.fsm.state.name)
+    # a second ending request may arrive while the first one is in progress (from a user, or re-routed by another
+    # instance): it is served or refused, but the Supervisor still receives exactly one order - the first one
+    again = src.pick('second_request', [None, 'restart', 'shutdown']) if second else None
     for r in range(rounds):
+        if again is not None and r == 1:
+            from supervisor.xmlrpc import RPCError
+            try:
+                getattr(core.rpc_intf, again)()
+            except RPCError:
+                pass
+            if core.fsm.state.name in ('RESTARTING', 'SHUTTING_DOWN'):
+                src.reach('second-request-while-ending')
         if lose_at == r:
             lost_ids.append(ids[1])
             # requests in flight to the dying instance are never answered (they may have reached it); the requests to
@@ -231,6 +242,10 @@ HARNESSES = [
     Harness('H09-master', ending, quick={'napps': 1, 'nprocs': 2}, thorough={'napps': 2, 'nprocs': 2},
             reach=('master', 'ran'), timeout=(150, 1500),
             doc='restart / shutdown on the Master: stop sequences, placement, behaviours, loss of the peer'),
+    Harness('H09-twice', ending, quick={'napps': 1, 'nprocs': 1, 'loss': False, 'second': True},
+            thorough={'napps': 1, 'nprocs': 2, 'loss': False, 'second': True},
+            reach=('master', 'ran', 'second-request-while-ending'), timeout=(60, 300),
+            doc='a second restart / shutdown request while the first one is in progress: still exactly one order'),
     Harness('H09-slave', ending, quick={'napps': 1, 'nprocs': 1, 'master': False, 'loss': False},
             thorough={'napps': 1, 'nprocs': 1, 'master': False, 'loss': False}, reach=('non-master',),
             timeout=(60, 120), doc='restart / shutdown issued on a non-Master'),
